@@ -38,14 +38,22 @@ Proof.
   split; [apply (fwalk_size g pl c); [assumption|lia]|apply IHl; [assumption|lia]].
 Qed.
 
-Lemma merge_ok_f1 i a ks : f1_ok (RN i a ks) -> merge_ok 1 a.
+Lemma merge_ok_f1 H0 i a ks : f1_okE (RN i a ks) -> merge_ok H0 a.
 Proof.
-  cbn [f1_ok]. intros [(nm & ->)|[(bk & off & nm & p & po & rest & -> & _)|[(off & w & v & -> & _)|[(off & ->)|[(off & -> & _)|[(off & nm & p & po & c & co & d & -> & _ & _)|(off & d & -> & Hc & _)]]]]]];
+  intros (h0 & tbl0 & Hk). revert Hk. cbn [f1_ok]. intros [(nm & ->)|[(bk & off & nm & p & po & rest & -> & _)|[(off & w & v & -> & _)|[(off & ->)|[(off & -> & _)|[(off & nm & p & po & c & co & d & -> & _ & _)|[(off & d & -> & Hc & _)|(lk & off & nm & p & po & rest & -> & _)]]]]]]];
     try (do 3 eexists; split; [reflexivity|right; reflexivity]).
   - destruct bk; (do 3 eexists; split; [reflexivity|right; reflexivity]).
   - destruct w; (do 3 eexists; split; [reflexivity|right; reflexivity]).
   - unfold cst_pay, merge_ok. cbn [y_info y_op y_th].
     destruct (is_constb_cases _ Hc) as [E|[E|[E|[E|[E|[E|E]]]]]]; rewrite E; (do 3 eexists; split; [reflexivity|right; reflexivity]).
+  - destruct lk; (do 3 eexists; split; [reflexivity|right; reflexivity]).
+Qed.
+
+Lemma f1_okE_live i a ks : f1_okE (RN i a ks) -> y_op a <> opFreed.
+Proof.
+  intros (h0 & tbl0 & Hk1). cbn [f1_ok] in Hk1.
+  destruct Hk1 as [(nm & ->)|[(bk0 & ? & ? & ? & ? & ? & -> & _)|[(? & w0 & ? & -> & _)|[(? & ->)|[(? & -> & _)|[(? & ? & ? & ? & ? & ? & ? & -> & _ & _)|[(? & d & -> & Hc & _)|(lk0 & ? & ? & ? & ? & ? & -> & _)]]]]]]]; try discriminate; try (destruct bk0; discriminate); try (destruct w0; discriminate); try (destruct lk0; discriminate).
+  cbn [cst_pay y_op]. destruct (is_constb_cases _ Hc) as [E|[E|[E|[E|[E|[E|E]]]]]]; rewrite E; discriminate.
 Qed.
 
 Lemma slice_at_n s tbls tbl data a b c : p_tables s = tbls -> nth_error tbls (N.to_nat tbl) = Some data -> data = a ++ b ++ c ->
@@ -106,7 +114,7 @@ Qed.
 
 (** ---- what stays below the root and what is moved below a predefined scope ---- *)
 Section MergeTop.
-Let tbl : N := 0.
+Variable h tbl : N.
 Variable tbls : list (list N).
 Variable data : list N.
 Hypothesis Hnth : nth_error tbls (N.to_nat tbl) = Some data.
@@ -114,7 +122,7 @@ Hypothesis Hnth : nth_error tbls (N.to_nat tbl) = Some data.
 Fixpoint keep (b off : N) (ts : list titem) : list rose :=
   match ts with
   | [] => []
-  | x :: t => (match x with TItem it => lay2_item 1 tbl b off it | TScope _ _ _ _ => [] end) ++ keep (b + N.of_nat (tsz x)) (off + lenN (enc_titem x)) t
+  | x :: t => (match x with TItem it => lay2_item h tbl b off it | TScope _ _ _ _ => [] end) ++ keep (b + N.of_nat (tsz x)) (off + lenN (enc_titem x)) t
   end.
 
 Fixpoint moved (b off : N) (ts : list titem) (d : N) : list rose :=
@@ -122,7 +130,7 @@ Fixpoint moved (b off : N) (ts : list titem) (d : N) : list rose :=
   | [] => []
   | x :: t => (match x with
                | TItem _ => []
-               | TScope k root d' body => if d' =? d then lay2 1 tbl (b + 3) (off + 1 + k + sc_len root) body else []
+               | TScope k root d' body => if d' =? d then lay2 h tbl (b + 3) (off + 1 + k + sc_len root) body else []
                end) ++ moved (b + N.of_nat (tsz x)) (off + lenN (enc_titem x)) t d
   end.
 
@@ -131,14 +139,14 @@ Definition D0' : list N := [1; 2; 3; 4; 5].
 (** the state of the pool while the root's children are walked: [KT] = the trees of the items that stay, [M d] = the
     trees moved below scope [d] so far, [b] = first slot of the remaining items *)
 Record MInv (g : ghost) (pl : list pay) (KT : list rose) (M : N -> list rose) (b off : N) (ts : list titem) : Prop := mkMInv {
-  mi_root : kids g 0 = D0' ++ map ridx KT ++ map ridx (tlay2 1 tbl b off ts);
+  mi_root : kids g 0 = D0' ++ map ridx KT ++ map ridx (tlay2 h tbl b off ts);
   mi_pay : forall i, 0 <= i <= 5 -> pget pl i = Some (dpay i);
   mi_leaf : forall d, 1 <= d <= 5 -> kids g d = map ridx (M d);
-  mi_rem : Forall (Desc g pl) (tlay2 1 tbl b off ts);
+  mi_rem : Forall (Desc g pl) (tlay2 h tbl b off ts);
   mi_KT : Forall (Desc g pl) KT;
   mi_M : forall d, 1 <= d <= 5 -> Forall (Desc g pl) (M d);
-  mi_okK : Forall (rallr f1_ok) KT;
-  mi_okM : forall d, 1 <= d <= 5 -> Forall (rallr f1_ok) (M d);
+  mi_okK : Forall (rallr f1_okE) KT;
+  mi_okM : forall d, 1 <= d <= 5 -> Forall (rallr f1_okE) (M d);
   mi_lowK : forall y, In y (rnodesl KT) -> 6 <= y < b;
   mi_lowM : forall d y, 1 <= d <= 5 -> In y (rnodesl (M d)) -> 6 <= y < b;
   mi_b : 6 <= b;
@@ -150,14 +158,14 @@ Record MInv (g : ghost) (pl : list pay) (KT : list rose) (M : N -> list rose) (b
 Definition MSpec (ts : list titem) : Prop :=
   forall KT M b off s g pl f R dpre dpost (Q : pres -> pstate -> Prop),
   Rep (p_tree s) g pl -> MInv g pl KT M b off ts ->
-  p_handle s = 1 -> p_tables s = tbls -> data = dpre ++ enc_titems ts ++ dpost -> off = lenN dpre ->
+  p_handle s = h -> p_tables s = tbls -> data = dpre ++ enc_titems ts ++ dpost -> off = lenN dpre ->
   forallb titem_okb ts = true ->
   (4 <= R)%nat -> (3 * tszs ts + length ts + R <= f)%nat ->
   (forall t' g' pl' m', Rep t' g' pl' ->
      MInv g' pl' (KT ++ keep b off ts) (fun d => M d ++ moved b off ts d) (b + N.of_nat (tszs ts)) (off + lenN (enc_titems ts)) [] ->
      wp False (mergeScope_loop (f - length ts) InvalidIndex ROk)
         (with_counters (with_tree s t') (p_resolvePasses s) m' (p_relocatedObjects s)) Q) ->
-  wp False (mergeScope_loop f (hd InvalidIndex (map ridx (tlay2 1 tbl b off ts))) ROk) s Q.
+  wp False (mergeScope_loop f (hd InvalidIndex (map ridx (tlay2 h tbl b off ts))) ROk) s Q.
 
 Lemma mspec_nil : MSpec [].
 Proof.
@@ -175,7 +183,7 @@ Proof.
 Qed.
 
 Lemma lay2_item_single h' tbl' b off it : exists a ks, lay2_item h' tbl' b off it = [RN b a ks].
-Proof. destruct it as [d|bk k seg fa body]; [cbn [lay2_item]|rewrite lay2_blk]; eauto. Qed.
+Proof. destruct it as [d|bk k seg fa body|lk seg fa ta]; [cbn [lay2_item]|rewrite lay2_blk|cbn [lay2_item]]; eauto. Qed.
 
 Lemma MInv_ext g pl KT KT' M M' b b' off off' ts :
   KT = KT' -> (forall d, M d = M' d) -> b = b' -> off = off' -> MInv g pl KT M b off ts -> MInv g pl KT' M' b' off' ts.
@@ -196,36 +204,33 @@ Proof.
   rewrite tlay2_cons in I1, I4 |- *. cbn [tlay2_item tsz enc_titem] in I1, I4 |- *.
   rewrite tszs_cons in Hf. cbn [tsz length] in Hf.
   rewrite enc_titems_cons in Hdata. cbn [enc_titem] in Hdata.
-  destruct (lay2_item_single 1 tbl b off it) as (a & ks & Etree). rewrite Etree in I1, I4 |- *. cbn [app map ridx hd] in I1, I4 |- *.
+  destruct (lay2_item_single h tbl b off it) as (a & ks & Etree). rewrite Etree in I1, I4 |- *. cbn [app map ridx hd] in I1, I4 |- *.
   set (B' := b + N.of_nat (isz it)) in *. set (off' := off + lenN (enc_item it)) in *.
   pose proof (Forall_inv I4) as Dtree. pose proof (Forall_inv_tail I4) as Drest.
   destruct (Desc_inv _ _ _ _ _ Dtree) as (Pb & Kb & _).
   assert (Hnodes : forall y, In y (rnodes (RN b a ks)) -> b <= y < B').
-  { intros y Hy. assert (Hy' : In y (rnodesl (lay2 1 tbl b off [it]))) by (rewrite lay2_single, Etree; unfold rnodesl; cbn [flat_map]; rewrite app_nil_r; exact Hy).
+  { intros y Hy. assert (Hy' : In y (rnodesl (lay2 h tbl b off [it]))) by (rewrite lay2_single, Etree; unfold rnodesl; cbn [flat_map]; rewrite app_nil_r; exact Hy).
     apply lay2_nodes in Hy'. cbn [iszs fold_right] in Hy'. unfold B'. lia. }
-  assert (Hoktree : rallr f1_ok (RN b a ks)).
-  { assert (Hl : Forall (rallr f1_ok) (lay2 1 tbl b off [it])) by (apply lay2_ok; cbn [forallb]; rewrite Hit; reflexivity).
+  assert (Hoktree : rallr f1_okE (RN b a ks)).
+  { assert (Hl : Forall (rallr f1_okE) (lay2 h tbl b off [it])) by (apply lay2_ok; cbn [forallb]; rewrite Hit; reflexivity).
     rewrite lay2_single, Etree in Hl. apply (Forall_inv Hl). }
   assert (Hsize : rsize (RN b a ks) = isz it).
-  { pose proof (lay2_rsizes 1 tbl [it] b off) as E. rewrite lay2_single, Etree in E. cbn [rsizes fold_right iszs] in E. lia. }
+  { pose proof (lay2_rsizes h tbl [it] b off) as E. rewrite lay2_single, Etree in E. cbn [rsizes fold_right iszs] in E. lia. }
   destruct f as [|f1]; [lia|]. rewrite mergeScope_loop_S.
-  assert (Hlb : y_op a <> opFreed).
-  { apply rallr_inv in Hoktree. destruct Hoktree as (Hk1 & _). pose proof (merge_ok_f1 _ _ _ Hk1) as Hm. clear -Hk1.
-    cbn [f1_ok] in Hk1. destruct Hk1 as [(nm & ->)|[(bk0 & ? & ? & ? & ? & ? & -> & _)|[(? & w0 & ? & -> & _)|[(? & ->)|[(? & -> & _)|[(? & ? & ? & ? & ? & ? & ? & -> & _ & _)|(? & d & -> & Hc & _)]]]]]]; try discriminate; try (destruct bk0; discriminate); try (destruct w0; discriminate).
-    cbn [cst_pay y_op]. destruct (is_constb_cases _ Hc) as [E|[E|[E|[E|[E|[E|E]]]]]]; rewrite E; discriminate. }
+  assert (Hlb : y_op a <> opFreed) by (apply rallr_inv in Hoktree; destruct Hoktree as (Hk1 & _); exact (f1_okE_live _ _ _ Hk1)).
   rewrite (rep_not_Inv _ _ _ _ _ H Pb).
   apply wp_bind. eapply wp_objectAt_rep; [exact H|exact Pb|exact Hlb|].
-  assert (Hk0 : kids g 0 = (D0' ++ map ridx KT) ++ b :: map ridx (tlay2 1 tbl B' off' rest)) by (rewrite I1, <- !app_assoc; reflexivity).
+  assert (Hk0 : kids g 0 = (D0' ++ map ridx KT) ++ b :: map ridx (tlay2 h tbl B' off' rest)) by (rewrite I1, <- !app_assoc; reflexivity).
   apply wp_bind. eapply (wp_rdf_sib False 0 (D0' ++ map ridx KT) b _); [exact H|exact Hk0|]. intros o _ _ _ Hnext _. rewrite Hnext.
   apply wp_bind. eapply (wp_rdf_sib False 0 (D0' ++ map ridx KT) b _); [exact H|exact Hk0|]. intros o' Hidx _ _ _ _. rewrite Hidx.
   (* the sub-tree of the item holds no Scope directive *)
   apply wp_bind. eapply wp_conseq.
-  { apply (proj1 (mergeS_all g pl 1 (fun y => In y (rnodes (RN b a ks)))
+  { apply (proj1 (mergeS_all g pl h (fun y => In y (rnodes (RN b a ks)))
                    (fun y c Hy Hc => Desc_kids_in g pl _ Dtree y c Hy Hc)
                    (fun y Hy => ltac:(pose proof (Hnodes y Hy); lia))
-                   (fun y a' Hy Ha' _ => ltac:(destruct (rallr_lookup g pl f1_ok _ Dtree Hoktree y Hy) as (a2 & ks2 & D2 & O2);
+                   (fun y a' Hy Ha' _ => ltac:(destruct (rallr_lookup g pl f1_okE _ Dtree Hoktree y Hy) as (a2 & ks2 & D2 & O2);
                                                 destruct (Desc_inv _ _ _ _ _ D2) as (P2 & _ & _); assert (a2 = a') by congruence; subst a2;
-                                                exact (merge_ok_f1 _ _ _ O2))) f1) b a s H Hh).
+                                                exact (merge_ok_f1 h _ _ _ O2))) f1) b a s H Hh).
     - rewrite rnodes_eq. left. reflexivity.
     - exact Pb.
     - exact Hlb.
@@ -244,7 +249,7 @@ Proof.
     + intros y a' Hy Ha' Hl'. destruct (N.ltb_spec y b) as [Hlt|Hge].
       * destruct (I12 y a' ltac:(lia) Ha' Hl') as [A|A]; [left; rewrite rnodesl_app; apply in_or_app; left; exact A|right; exact A].
       * left. rewrite rnodesl_app. apply in_or_app. right.
-        assert (Hin : In y (rnodesl (lay2 1 tbl b off [it]))) by (apply lay2_nodes_all; cbn [iszs fold_right]; unfold B' in Hy; lia).
+        assert (Hin : In y (rnodesl (lay2 h tbl b off [it]))) by (apply lay2_nodes_all; cbn [iszs fold_right]; unfold B' in Hy; lia).
         rewrite lay2_single, Etree in Hin. exact Hin.
     + intros y Hy. apply I13. rewrite tszs_cons. cbn [tsz]. unfold B' in Hy. lia.
   - rewrite Hdata, <- !app_assoc. reflexivity.
@@ -263,11 +268,11 @@ Proof.
   apply in_flat_map. exists r. split; [exact Hr|]. rewrite Forall_forall in HD. eapply Desc_kids_in; eauto.
 Qed.
 
-Lemma forest_lookup g pl l : Forall (Desc g pl) l -> Forall (rallr f1_ok) l -> forall y, In y (rnodesl l) ->
-  exists a ks, Desc g pl (RN y a ks) /\ f1_ok (RN y a ks).
+Lemma forest_lookup g pl l : Forall (Desc g pl) l -> Forall (rallr f1_okE) l -> forall y, In y (rnodesl l) ->
+  exists a ks, Desc g pl (RN y a ks) /\ f1_okE (RN y a ks).
 Proof.
   intros HD HO y Hy. unfold rnodesl in Hy. apply in_flat_map in Hy. destruct Hy as (r & Hr & Hyr).
-  rewrite Forall_forall in HD, HO. apply (rallr_lookup g pl f1_ok r (HD r Hr) (HO r Hr) y Hyr).
+  rewrite Forall_forall in HD, HO. apply (rallr_lookup g pl f1_okE r (HD r Hr) (HO r Hr) y Hyr).
 Qed.
 
 Lemma mspec_scope k root d body rest : MSpec rest -> MSpec (TScope k root d body :: rest).
@@ -291,12 +296,12 @@ Proof.
   destruct (Desc_inv _ _ _ _ _ DD) as (PD & KD & HD2). cbn [map ridx] in KD.
   pose proof (Forall_inv HD2) as DP. pose proof (Forall_inv (Forall_inv_tail HD2)) as DS. clear HD2.
   destruct (Desc_inv _ _ _ _ _ DP) as (PP & KP & _). destruct (Desc_inv _ _ _ _ _ DS) as (PS & KS & HDbody). cbn [map] in KP.
-  set (ms := map ridx (lay2 1 tbl (b + 3) off1 body)) in *.
-  set (l1 := D0' ++ map ridx KT). set (l2 := map ridx (tlay2 1 tbl B' off' rest)) in *.
+  set (ms := map ridx (lay2 h tbl (b + 3) off1 body)) in *.
+  set (l1 := D0' ++ map ridx KT). set (l2 := map ridx (tlay2 h tbl B' off' rest)) in *.
   assert (Hk0 : kids g 0 = l1 ++ b :: l2) by (rewrite I1; unfold l1; rewrite <- !app_assoc; reflexivity).
-  assert (Hbody_nodes : forall y, In y (rnodesl (lay2 1 tbl (b + 3) off1 body)) -> b + 3 <= y < B').
+  assert (Hbody_nodes : forall y, In y (rnodesl (lay2 h tbl (b + 3) off1 body)) -> b + 3 <= y < B').
   { intros y Hy. apply lay2_nodes in Hy. unfold B'. lia. }
-  assert (Hbody_okf : Forall (rallr f1_ok) (lay2 1 tbl (b + 3) off1 body)) by (apply lay2_ok; exact Hbody_ok).
+  assert (Hbody_okf : Forall (rallr f1_okE) (lay2 h tbl (b + 3) off1 body)) by (apply lay2_ok; exact Hbody_ok).
   destruct f as [|f1]; [lia|]. rewrite tlay2_cons. cbn [tlay2_item app map ridx hd]. rewrite mergeScope_loop_S.
   rewrite (rep_not_Inv _ _ _ _ _ H PD).
   apply wp_bind. eapply wp_objectAt_rep; [exact H|exact PD|discriminate|].
@@ -313,14 +318,14 @@ Proof.
   assert (HFind : Find (p_tree s) 0 (enc_name (sc_name root seg)) = Ok d).
   { eapply (Find_default _ g pl root d (map ridx KT ++ b :: l2)); [exact H|lia|rewrite Hk0; unfold l1; rewrite <- app_assoc; reflexivity|exact I2]. }
   apply wp_bind.
-  eapply (merge_scope f2 1 b (b + 1) (b + 2) d ms (map ridx (M d)) l1 l2 (enc_name (sc_name root seg)) tbl (mkSlice (Some (off + 1 + k)) nl) s g pl
-            (dpay 0) (scp_pay 1 off) (pthn_pay 1 tbl (off + 1 + k) nl) (sb_pay 1 off1) (dpay d));
+  eapply (merge_scope f2 h b (b + 1) (b + 2) d ms (map ridx (M d)) l1 l2 (enc_name (sc_name root seg)) tbl (mkSlice (Some (off + 1 + k)) nl) s g pl
+            (dpay 0) (scp_pay h off) (pthn_pay h tbl (off + 1 + k) nl) (sb_pay h off1) (dpay d));
     [exact H|exact Hh|exact Hk0|exact KD|exact KP|exact KS|apply I3; lia|apply I2; lia|discriminate|exact PD|reflexivity|reflexivity|reflexivity
     |exact PP|discriminate|reflexivity|exact Hsl|exact PS|discriminate|apply I2; lia|reflexivity| |lia|lia|lia|lia|lia|lia|lia|lia|lia|lia|exact HFind| |].
   { unfold l1, D0'. apply in_or_app. left. cbn [In]. lia. }
   { intros m Hm Hdesc. unfold ms in Hm. apply in_map_iff in Hm. destruct Hm as (r & <- & Hr).
     rewrite Forall_forall in HDbody. pose proof (desc_in_tree g pl r (HDbody r Hr) d Hdesc) as Hin.
-    assert (Hin' : In d (rnodesl (lay2 1 tbl (b + 3) off1 body))) by (unfold rnodesl; apply in_flat_map; exists r; auto).
+    assert (Hin' : In d (rnodesl (lay2 h tbl (b + 3) off1 body))) by (unfold rnodesl; apply in_flat_map; exists r; auto).
     apply Hbody_nodes in Hin'. lia. }
   intros t1 g1 H1 L1 F1 K1.
   set (pl1 := pupd (pupd (pupd pl (b + 1) FR) (b + 2) FR) b FR) in *.
@@ -331,25 +336,25 @@ Proof.
   assert (Hframe : forall l, Forall (Desc g pl) l -> (forall y, In y (rnodesl l) -> 6 <= y /\ (y < b \/ b + 3 <= y)) -> Forall (Desc g1 pl1) l).
   { intros l HDl Hl. apply (Desc_frame_l g pl); [exact HDl|]. intros y Hy. destruct (Hl y Hy) as (A & B).
     split; [apply Hk1; lia|apply Hp1; lia]. }
-  assert (HDbody1 : Forall (Desc g1 pl1) (lay2 1 tbl (b + 3) off1 body)).
+  assert (HDbody1 : Forall (Desc g1 pl1) (lay2 h tbl (b + 3) off1 body)).
   { apply Hframe; [exact HDbody|]. intros y Hy. apply Hbody_nodes in Hy. lia. }
   (* the walk goes on over the moved objects *)
   set (s1 := with_counters (with_tree s t1) (p_resolvePasses s) (w32 (p_mergedScopes s + 1)) (p_relocatedObjects s)).
   assert (Hkd1 : kids g1 d = map ridx (M d) ++ ms).
   { rewrite K1, N.eqb_refl. reflexivity. }
   eapply wp_conseq.
-  { apply (proj2 (mergeS_all g1 pl1 1 (fun y => In y (rnodesl (lay2 1 tbl (b + 3) off1 body)))
+  { apply (proj2 (mergeS_all g1 pl1 h (fun y => In y (rnodesl (lay2 h tbl (b + 3) off1 body)))
                    (fun y c Hy Hc => forest_kids_in g1 pl1 _ HDbody1 y c Hy Hc)
                    (fun y Hy => ltac:(pose proof (Hbody_nodes y Hy); lia))
                    (fun y a' Hy Ha' _ => ltac:(destruct (forest_lookup g1 pl1 _ HDbody1 Hbody_okf y Hy) as (a2 & ks2 & D2 & O2);
                                                 destruct (Desc_inv _ _ _ _ _ D2) as (P2 & _ & _); assert (a2 = a') by congruence; subst a2;
-                                                exact (merge_ok_f1 _ _ _ O2))) f2) d (map ridx (M d)) ms ROk s1 H1 Hh Hkd1).
+                                                exact (merge_ok_f1 h _ _ _ O2))) f2) d (map ridx (M d)) ms ROk s1 H1 Hh Hkd1).
     - intros c Hc. unfold ms in Hc. apply in_map_iff in Hc. destruct Hc as (r & <- & Hr). unfold rnodesl. apply in_flat_map.
       exists r. split; [exact Hr|]. destruct r. rewrite rnodes_eq. left. reflexivity.
     - apply (floop_size g1 pl1 _ _ HDbody1). rewrite lay2_rsizes. lia. }
   intros r s' (-> & ->). cbv iota.
   (* the remaining items *)
-  set (M' := fun d' => if d' =? d then M d ++ lay2 1 tbl (b + 3) off1 body else M d').
+  set (M' := fun d' => if d' =? d then M d ++ lay2 h tbl (b + 3) off1 body else M d').
   eapply (IH KT M' B' off' s1 g1 pl1 (S f2) R (dpre ++ enc_op OP_SCOPE ++ enc_pkglen k v ++ enc_name (sc_name root seg) ++ enc_items body) dpost Q);
     [exact H1| |exact Hh|exact Htb| | |exact Hok|exact HR|lia|].
   - constructor.
